@@ -7,8 +7,8 @@
      what  = all  (datetime|date|time|duration for cells; datetime|duration for the edt kinds)
              de   (cells only) the same cell through the eight serde helpers
                   deserialize_as_{datetime,date,time,duration}_or_none then .._or_string
-                  (a None of the _or_string variants prints E); a failed deserialization prints err;
-                  followed by |H<helper date class or ->/<helper duration class or ->
+                  (a None of the _or_string variants prints E); a failed deserialization prints err
+                  (no known class is left at the helpers: F34 / F35 are fixed)
    Answer: fields joined by a vertical bar, each  N  (None),  panic,  or
      datetime  D<days>,<secs>,<nanos>,<y>-<m>-<d>      date  <days>,<y>-<m>-<d>
      time      <secs>,<nanos>                           duration  <num_seconds>,<subsec_nanos>,<num_milliseconds>
@@ -50,10 +50,8 @@ let run (args : string list) : string =
       let e s = if s = "N" then "E" else s in
       let a = show_o show_dt (helper_as_datetime c) and b = show_o show_date (helper_as_date c)
       and t = show_o show_time (helper_as_time c) and d = show_o show_dur (helper_as_duration c) in
-      let body = if List.mem "err" [a; b; t; d] then "err"
-        else String.concat "|" [a; b; t; d; e a; e b; e t; e d] in
-      let cls k = match k with Some n -> string_of_n n | None -> "-" in
-      body ^ "|H" ^ cls (known_C11_helper_dt c) ^ "/" ^ cls (known_C11_helper_dur c) in
+      if List.mem "err" [a; b; t; d] then "err"
+      else String.concat "|" [a; b; t; d; e a; e b; e t; e d] in
     let cell_all c v sys = if de then helpers_all c else
       String.concat "|" [ show_o show_dt (data_as_datetime c); show_o show_date (data_as_date c);
                           show_o show_time (data_as_time c); show_o show_dur (data_as_duration c) ]
